@@ -270,6 +270,8 @@ type econtroller struct {
 	self    uint64
 	trace   []string
 	hung    bool
+	lastCat *lungo.Catalog // published catalog at the previous observation
+	pubs    int            // number of publications observed
 	ignored map[uint64]bool // goroutines that existed before the scenario (leaked by earlier ones)
 }
 
@@ -335,8 +337,12 @@ func b01(b bool) string {
 // observe: the snapshot and the location of every actor (call only when quiescent).
 func (ct *econtroller) observe() string {
 	s := lungo.VerifSnapshot(ct.engine)
+	if s.Catalog != ct.lastCat {
+		ct.lastCat = s.Catalog
+		ct.pubs++
+	}
 	var sb strings.Builder
-	fmt.Fprintf(&sb, "(%s %s %s %d) (", b01(s.HasTxn), b01(s.TokenInUse), b01(s.Alive), lungo.VerifStreams(ct.engine))
+	fmt.Fprintf(&sb, "(%s %s %s %d %d) (", b01(s.HasTxn), b01(s.TokenInUse), b01(s.Alive), lungo.VerifStreams(ct.engine), ct.pubs)
 	ct.mu.Lock()
 	for i, a := range ct.actors {
 		if i > 0 {
@@ -555,6 +561,7 @@ func runEngineScenario(sc *escenario, r *rng) eoutcome {
 		return eoutcome{verdict: "OPEN-ERROR"}
 	}
 	ct := &econtroller{engine: engine, client: client, store: store, byGid: map[uint64]*eactor{}, self: lungo.VerifGoroutineID()}
+	ct.lastCat = lungo.VerifSnapshot(engine).Catalog
 	for i := 0; i < sc.nsess; i++ {
 		s, _ := client.StartSession()
 		ct.sess = append(ct.sess, s.(*lungo.Session))
